@@ -331,6 +331,25 @@ pub fn c04_worker(ctx: &mut Ctx) {
                 ctx.note_nontrivial(case_hash(&case, op.name()));
             }
         }
+        if i % 8 == 3 && !case.self_crossing {
+            // an operand combined with itself (or an equal copy), written clockwise: every edge is a coincident pair, no
+            // vertex is new, and the rings that come back are assembled by the sweep, hence counter-clockwise
+            let rev = |mp: &MP| -> MP { mp.iter().map(|p| p.iter().map(|r| r.iter().rev().cloned().collect()).collect()).collect() };
+            let src = if i % 16 == 3 { &case.a } else { &case.b };
+            if !src.is_empty() {
+                let mut selfcase = case.clone();
+                selfcase.a = rev(src);
+                selfcase.b = selfcase.a.clone();
+                selfcase.faces = vec![];
+                ctx.cnt("self_operations_on_clockwise_operands", 1);
+                for op in [Op::Intersection, Op::Union] {
+                    ctx.evaluations += 1;
+                    if let Err((sym, detail)) = c04_check(&selfcase, op, false, &mut st) {
+                        ctx.violation(&sym, &format!("operand combined with an equal copy of itself (written clockwise): {}", detail), boolean_replay("C04", &selfcase, Some(op), false, Pairing::MM, json!({})));
+                    }
+                }
+            }
+        }
         ctx.end();
         if i % 997 == 0 {
             ctx.sample(case_brief(&case));
